@@ -454,9 +454,11 @@ namespace foonathan
             static void* allocate_array(allocator_type& state, std::size_t count, std::size_t size,
                                         std::size_t alignment)
             {
-                // node and array already checked
+                // node already checked
                 detail::check_allocation_size<bad_alignment>(
                     alignment, [&] { return detail::alignment_for(size); }, state.info());
+                detail::check_allocation_size<bad_array_size>(
+                    count * size, [&] { return max_array_size(state); }, state.info());
                 auto mem = state.allocate_array(count, size);
                 state.on_allocate(count * size);
                 return mem;
